@@ -4,6 +4,7 @@ import itertools
 import numpy as np
 from .common import guarded, run_model, rats, rows, ints, fracs, close, POOL, layout
 from .npcutil import liptak_bracket, npc_exact
+from .c07 import disguise
 
 RULE = ("p-value vectors with j = 2..6 in every kind of order (sorted, reversed, rotations/3-cycles, random, ties), "
         "integer distr matrices with ties (B = 2..30), Fisher / Tippett / user combiner, both plus1; non-trivial = "
@@ -90,7 +91,8 @@ def run(ctx):
             for first in ctx.rng.sample(["liptak", "tippett", "fisher"], 2):
                 guarded(npc.fwer_minp, pf, Df, combine=first, plus1=plus1)
                 guarded(npc.npc, pf, Df, combine=first, plus1=plus1)
-        r = guarded(npc.fwer_minp, pf, Df, combine=({"callable": user_sym, "callable-posw": posw}.get(comb, comb)), plus1=plus1)
+        cfun_ = disguise({"callable": user_sym, "callable-posw": posw}.get(comb, comb), ctx.rng, ctx.count, exact_ok=(comb == "callable"))
+        r = guarded(npc.fwer_minp, pf, Df, combine=cfun_, plus1=plus1)
         nontriv = any(pv[i] > pv[i + 1] for i in range(j - 1))
         det = {"call": "fwer_minp", "pvalues": [str(v) for v in pv], "distr": D, "combine": comb, "plus1": plus1}
         ctx.case((tuple(pv), tuple(map(tuple, D)), comb, plus1), nontriv, det)
@@ -148,7 +150,7 @@ def run(ctx):
         # relabelling (distinct raw p-values): permute pvalues and columns together
         if len(set(pv)) == j:
             perm = list(range(j)); ctx.rng.shuffle(perm)
-            r2 = guarded(npc.fwer_minp, pf[perm], Df[:, perm], combine=({"callable": user_sym, "callable-posw": posw}.get(comb, comb)), plus1=plus1)
+            r2 = guarded(npc.fwer_minp, pf[perm], Df[:, perm], combine=(user_sym if comb == "callable" else cfun_), plus1=plus1)
             w2, amb2, _ = exact_fwer([pv[i] for i in perm], [[row[i] for i in perm] for row in D], name, plus1)
             if not amb2 and (r2[0] != "ok" or not all(close(float(r2[1][k]), want[perm[k]]) for k in range(j))):
                 det.update({"issue": "relabelling the hypotheses does not permute the output", "perm": perm,
